@@ -392,6 +392,9 @@ func (k Keeper) GetLendPairID(ctx sdk.Context) uint64 {
 
 func (k Keeper) AddAssetRatesParams(ctx sdk.Context, records ...types.AssetRatesParams) error {
 	for _, msg := range records {
+		if err := msg.Validate(); err != nil {
+			return err
+		}
 		assetRatesParams := types.AssetRatesParams{
 			AssetID:              msg.AssetID,
 			UOptimal:             msg.UOptimal,
@@ -510,6 +513,9 @@ func (k Keeper) GetAllAssetRatesParams(ctx sdk.Context) (assetRatesParams []type
 }
 
 func (k Keeper) AddAssetRatesPoolPairs(ctx sdk.Context, msg types.AssetRatesPoolPairs) error {
+	if err := msg.Validate(); err != nil {
+		return err
+	}
 	_, found := k.GetAssetRatesParams(ctx, msg.AssetID)
 	if found {
 		return types.ErrorAssetRatesParamsAlreadyExists
